@@ -177,6 +177,20 @@ def observe(c, rnd, n_obs):
             has_solid = any("solid_header" in o for o in objs)
             has_nl = any("\n" in n for n in names)
             pw = ["--password", X.PW] if flavour in ("encrypted", "encsolid") else []
+            # `experimental stdio -t` is the same listing as `list --solid` (stdio.rs run_list_archive builds the same
+            # ListOptions), from a named file and from standard input; single-file archives only (stdin cannot chain parts)
+            if len(inputs) == 1 and rnd.random() < 0.5:
+                ref = cli.run_pna(["list", "--solid"] + pw + ["--", inputs[0]], cwd=sb.root, timeout=60)
+                for how in ("file", "stdin"):
+                    if how == "file":
+                        r2 = cli.run_pna(["experimental", "stdio", "-t", "-f", inputs[0]] + pw, cwd=sb.root, timeout=60)
+                    else:
+                        r2 = cli.run_pna(["experimental", "stdio", "-t"] + pw, cwd=sb.root, timeout=60, stdin=open(inputs[0], "rb").read())
+                    c.cov["evaluations"] += 1
+                    c.hist["stdio -t (" + how + ")"] = c.hist.get("stdio -t (" + how + ")", 0) + 1
+                    if (r2["rc"], r2["out"]) != (ref["rc"], ref["out"]):
+                        c.violations.append(("oracle", "`pna experimental stdio -t` (%s) and `pna list --solid` disagree on what the archive contains" % how,
+                                             "archive: %s (%s)\nlist --solid: rc %s %r\nstdio -t: rc %s %r %r" % (atext, flavour, ref["rc"], ref["out"][:400], r2["rc"], r2["out"][:400], r2["err"][-200:]), True))
             for _ in range(8):
                 if done >= n_obs:
                     break
